@@ -515,7 +515,7 @@ def instance(P, S0, ev):
     if not walk or out:
         return out  # UniformRandomGenerator does not advertise solvability
     # solvability certificate (RandomWalkGenerator: "guaranteed to be solvable")
-    cert = None
+    cert, hint = None, ""
     if P.env is not None and getattr(ev, "key_int", None) is not None:
         import jax
 
@@ -523,6 +523,14 @@ def instance(P, S0, ev):
         if sb is not None and np.array_equal(sb[1], grid):
             cert = certificate_paths(sb[0], st, tg)
             P.hit("solvable_certificate_checked")
+            if cert is None:
+                broken = []
+                for i in range(n):
+                    own = {(int(r), int(c)) for r, c in np.argwhere((sb[0] >= 1 + 3 * i) & (sb[0] <= 3 + 3 * i))}
+                    if _bfs_path(own, tuple(st[i]), tuple(tg[i])) is None:
+                        boxed = not any((st[i][0] + dr, st[i][1] + dc) in own for dr, dc in NBRS)
+                        broken.append(f"{i}{' (start has no own-coded neighbour: boxed in at initialisation)' if boxed else ''}")
+                hint = f"; the generator's own solved board holds no start->target path for agent(s) {', '.join(broken)}"
     if cert is not None:
         P.hit("solvable_by_certificate")
         return out
@@ -532,7 +540,7 @@ def instance(P, S0, ev):
     elif ok is None:
         P.hit("solvability_undecided")
     else:
-        out.append(f"random_walk_solvable: no vertex-disjoint paths connect starts {st.tolist()} to targets {tg.tolist()} (exhaustive search)")
+        out.append(f"random_walk_solvable: no vertex-disjoint paths connect starts {st.tolist()} to targets {tg.tolist()} (exhaustive search){hint}")
     return out
 
 
